@@ -22,6 +22,7 @@ import (
 	"strconv"
 	"strings"
 	"sync"
+	"unicode"
 )
 
 // All type definitions
@@ -286,10 +287,23 @@ func ParsePipe(match string) ([]*PipeSelector, error) {
 	return slice, nil
 }
 
+func isFunctionName(name string) bool {
+	if len(name) == 0 {
+		return false
+	}
+	for _, r := range name {
+		if r != '_' && !unicode.IsLetter(r) && !unicode.IsDigit(r) {
+			return false
+		}
+	}
+	return true
+}
+
 func ParseSelector(selector string) ([]any, error) {
 	functions := strings.SplitN(selector, "=>", 2)
 	slice := make([]any, 0)
-	if len(functions) == 2 {
+	// `fn=>rest` applies a top level function; the `=>` of `[keep=>...]` belongs to the array step
+	if len(functions) == 2 && isFunctionName(functions[0]) {
 		selector = functions[1]
 		slice = append(slice, TopLevelFunctionSelector(functions[0]))
 	}
